@@ -430,6 +430,10 @@ class Tokenizer(object):
                                 pushChar(next_char_)
                                 break
                         token = EscapeSequence(''.join(word))
+                        # A control word (a name made of characters whose
+                        # category code is "letter") absorbs the following
+                        # whitespace
+                        self.state = STATE_S
 
                     elif next_code == CC_EOL:
                         #pushChar(token)
@@ -438,21 +442,8 @@ class Tokenizer(object):
                         self.state = STATE_S
 
                     else:
+                        # Control symbol: whitespace after it is significant
                         token = EscapeSequence(next_char)
-#
-# Because we can implement macros both in LaTeX and Python, we don't
-# always want the whitespace to be eaten.  For example, implementing
-# \chardef\%=`% would be \char{`%} in TeX, but in Python it's just
-# another macro class that would eat whitspace incorrectly.  So we
-# have to do this kind of thing in the parse() method of Macro.
-#
-                    if next_code != CC_EOL:
-# HACK: I couldn't get the parse() thing to work so I'm just not
-#       going to parse whitespace after EscapeSequences that end in
-#       non-letter characters as a half-assed solution.
-                        if token[-1] in encoding.stringletters():
-                            # Absorb following whitespace
-                            self.state = STATE_S
 
                     break
 
